@@ -8,6 +8,7 @@ import (
 	"encoding/base64"
 	"fmt"
 	"io"
+	"net/url"
 	"regexp"
 	"strings"
 	"sync"
@@ -103,6 +104,14 @@ func genC13Case(t *rapid.T) C13Case {
 	c.Tr = spsim.Transport{Binding: binding, Plus: true, Encoding: A, RelayState: xt.LegalString(5).Draw(t, "relay")}
 	if rapid.IntRange(0, 3).Draw(t, "norelay") == 0 {
 		c.Tr.RelayState = A
+	} else if rapid.IntRange(0, 4).Draw(t, "relay-url") == 0 {
+		// the page to return to, as a URL: on the host of one of the provider's own endpoints, or anywhere
+		acs := spec.SPs[c.SP].ACS[0].Location
+		if u, err := url.Parse(acs); err == nil && u.Host != "" && rapid.Bool().Draw(t, "relay-own-host") {
+			c.Tr.RelayState = u.Scheme + "://" + u.Host + "/after-logout?page=home"
+		} else {
+			c.Tr.RelayState = rapid.SampledFrom([]string{"https://elsewhere.example/return", "//elsewhere.example/x", "https://idp.example/"}).Draw(t, "relay-urlv")
+		}
 	}
 	if rapid.Bool().Draw(t, "explicitenc") {
 		if binding == "redirect" || rapid.Bool().Draw(t, "deflatepost") {
